@@ -12,6 +12,8 @@
   CP  coupling probe: zero interaction energy between the two groups => early return, nothing swapped          (TOP)
   GR  every cut-off of the shipped file is <= 20 A                                                                (TOP, ground)
 """
+import z3
+
 from .common import *   # noqa: F401,F403
 from pyvc.loops import LoopSpec
 from pyvc.core import Builtin
@@ -138,6 +140,48 @@ def task_ion_backbone_reorg(pr, repo):
         ctx.oblige('IO: a backbone group whose closest atom is at or beyond the outer cut-off adds no determinant',
                    Implies(dist >= c2, len(tg.attrs['determinants']['backbone']) == 0))
     pr.explore(ex, t_bb, 'set_backbone_determinants')
+
+    reached = []
+
+    def t_bb_indep(ex, ctx):
+        # what a titratable group gets does not depend on which other titratable groups are in the list (before or after it) -
+        # in particular not on an incomplete group without interaction atoms, or one that has no parameters with this backbone group
+        c1, c2, dist, dpka, en = R('cutoff1'), R('cutoff2'), R('dist'), R('dpka'), R('hb_energy')
+        ctx.assume(And(c1 < c2, dist >= 0))
+        results = []
+        for layout in ('alone', 'empty first', 'no-parameter group first', 'empty last'):
+            heavy = xyz('heavy', A, element='N')
+            tatom = xyz('tatom', A, element='O', bonded_atoms=[heavy])
+            batom = xyz('batom', A, element='H', bonded_atoms=[heavy])       # amide hydrogen of the backbone N-H
+            oatom = xyz('oatom', A, element='C', bonded_atoms=[heavy])
+            tg = C16.sym_group(repo, 'tg', type='COO', interaction_atoms_for_acids=[tatom])
+            tg.attrs['charge'] = R('q')
+            empty = C16.sym_group(repo, 'empty', type='COO', interaction_atoms_for_acids=[])
+            nopar = C16.sym_group(repo, 'nopar', type='LYS', interaction_atoms_for_acids=[oatom])
+            bb = C16.sym_group(repo, 'bb', type='BBN')
+            bb.attrs['get_interaction_atoms'] = C16.Builtin_list([batom])
+            version = record('version', None, parameters=record('P', None, angular_dependent_sidechain_interactions=['HIS']))
+            version.attrs['get_backbone_hydrogen_bond_parameters'] = Builtin(
+                'bbp', lambda ex_, b, t_, oatom=oatom: None if t_ is oatom else [dpka, [c1, c2]])
+            ex.contracts['propka.calculations.get_smallest_distance'] = \
+                lambda ex_, ctx_, fi_, a, k, so, batom=batom: [batom, dist, a[1][0]]
+            ex.contracts[E + 'hydrogen_bond_energy'] = lambda ex_, ctx_, fi_, a, k, so: en
+            ex.contracts[E + 'angle_distance_factors'] = lambda ex_, ctx_, fi_, a, k, so: (R('d12'), R('f_angle'), R('d23'))
+            groups = {'alone': [tg], 'empty first': [empty, tg], 'no-parameter group first': [nopar, tg], 'empty last': [tg, empty]}[layout]
+            ex.call_function(repo.func(D + 'set_backbone_determinants'), [groups, [bb], version])
+            results.append((layout, [d.attrs['value'] for d in tg.attrs['determinants']['backbone']],
+                            len(empty.attrs['determinants']['backbone']) + len(nopar.attrs['determinants']['backbone'])))
+        ref = results[0][1]
+        reached.append(len(ref))
+        for layout, vals, others in results[1:]:
+            ctx.oblige('IO[%s]: the backbone determinants of a group do not depend on the other titratable groups in the list; groups '
+                       'without interaction atoms or parameters get none' % layout,
+                       And(len(vals) == len(ref), others == 0, *[a == b for a, b in zip(vals, ref)]))
+    pr.explore(ex, t_bb_indep, 'set_backbone_determinants independence')
+    ex.contracts.pop(E + 'hydrogen_bond_energy', None)
+    ex.contracts.pop(E + 'angle_distance_factors', None)
+    pr.add(Ground('IO: vacuity guard - the independence harness reaches the determinant-adding branch',
+                  any(n > 0 for n in reached), kind='aux'))
 
     def t_reorg(ex, ctx):
         FN = E + 'backbone_reorganization'
@@ -292,6 +336,35 @@ def task_probe_far(pr, repo):
     pr.explore(ex, thunk, 'coupling probe, no interaction')
 
 
+def task_coupled_systems(pr, repo):
+    """CS: get_coupled_systems partitions the given groups - as OBJECTS - into the connected components of the coupling relation; two
+    groups that merely print the same label (a structure and its own copy) stay in different systems."""
+    ex = Executor(repo)
+    CCn = 'propka.conformation_container.ConformationContainer'
+    fi = repo.func(CCn + '.get_coupled_systems')
+    pr.under_contract(fi)
+    pr.under_contract(repo.func(CCn + '.get_a_coupled_system_of_groups'))
+    pr.under_contract(repo.func('propka.group.Group.__hash__'))
+    Gc = repo.cls('propka.group.Group')
+    for layout in ('copy: equal labels', 'distinct labels', 'chain of three + single'):
+        def thunk(ex, ctx, layout=layout):
+            labs = {'copy: equal labels': ['N+    7 I', 'ASP   7 I', 'N+    7 I', 'ASP   7 I'],
+                    'distinct labels': ['N+    7 I', 'ASP   7 I', 'N+    7 J', 'ASP   7 J'],
+                    'chain of three + single': ['A', 'B', 'C', 'B']}[layout]
+            gs = [record('g%d' % i, Gc, label=l, covalently_coupled_groups=[]) for i, l in enumerate(labs)]
+            pairs = [(0, 1), (2, 3)] if not layout.startswith('chain') else [(0, 1), (1, 2)]
+            for a, b in pairs:
+                gs[a].attrs['covalently_coupled_groups'].append(gs[b])
+                gs[b].attrs['covalently_coupled_groups'].append(gs[a])
+            conf = record('conf', repo.cls(CCn))
+            getter = Builtin('getter', lambda ex_, g: list(g.attrs['covalently_coupled_groups']))
+            systems = ex.call_function(fi, [list(gs), getter], self_obj=conf)
+            got = sorted(sorted(int(g.name[1:]) for g in sy) for sy in ex.iterate(systems))
+            want = sorted(sorted(c) for c in ([[0, 1], [2, 3]] if not layout.startswith('chain') else [[0, 1, 2], [3]]))
+            ctx.oblige('CS[%s]: the systems are exactly the connected components over group objects' % layout, got == want)
+        pr.explore(ex, thunk, 'get_coupled_systems ' + layout)
+
+
 def task_boundary_records(pr, repo, tag):
     from . import reader
     reader.explore_steps(pr, repo, reader.check_transition, tags=[tag], names=reader.NAMES, chains_cases=(None,),
@@ -305,7 +378,7 @@ def run(pr, repo):
     cuts += [v[2] for v in list(p.backbone_CO_hydrogen_bond.values()) + list(p.backbone_NH_hydrogen_bond.values())]
     pr.add(Ground('GR: every cut-off of the shipped parameter file is <= 20 A (largest: %s)' % max(cuts), max(cuts) <= 20.0))
     pr.parallel([(task_desolvation, ()), (task_set_determinants, ()), (task_ion_backbone_reorg, ()), (task_smallest, ()),
-                 (task_iterative, ()), (task_probe_far, ()), (C08.task_average_twins, ())] +
+                 (task_iterative, ()), (task_probe_far, ()), (C08.task_average_twins, ()), (task_coupled_systems, ())] +
                 # order of the parts in the file: the only state carried from one record to the next is the terminus search, and a
                 # TER record (in whatever layout) re-arms it - the record automaton of C01 for the non-ATOM records
                 [(task_boundary_records, (t,)) for t in ('TER   ', 'MODEL ', 'OTHER')])
